@@ -348,6 +348,76 @@ func c07Case(w *core.W, j int) {
 	}
 }
 
+// c07MustErrorWith is c07MustError for parsers with includes enabled on an in-memory file system.
+func c07MustErrorWith(w *core.W, text, kind string, fsys fstest.MapFS) {
+	w.Eval(1)
+	w.Count("must_error_texts", 1)
+	wit := map[string]any{"zone_text": cutBig(text), "kind": kind, "includes": "allowed, in-memory FS"}
+	records := 0
+	var err error
+	if w.Guard("ZoneParser", wit, func() {
+		zp := dns.NewZoneParser(strings.NewReader(text), "example.", "zones/zone.db")
+		zp.SetIncludeAllowed(true)
+		zp.SetIncludeFS(fsys)
+		for _, ok := zp.Next(); ok; _, ok = zp.Next() {
+			records++
+		}
+		err = zp.Err()
+	}) {
+		return
+	}
+	if err == nil {
+		w.Violation("C07/syntax-error-not-reported/"+kind, fmt.Sprintf("the text is malformed by construction (%s) but parsing ended without an error after %d record(s)", strings.SplitN(kind, "/", 2)[0], records), wit)
+	}
+}
+
+// c07DirectiveParens: a closing parenthesis that closes nothing, and one that is still open when the input
+// ends, at every token boundary of every directive line: lexical errors wherever they stand.
+func c07DirectiveParens(w *core.W, j int) {
+	fsys := fstest.MapFS{"zones/inc.db": &fstest.MapFile{Data: []byte("inc 60 IN A 192.0.2.9\n")}}
+	lines := []struct{ name, line string }{
+		{"$ORIGIN", "$ORIGIN sub.example."},
+		{"$TTL", "$TTL 300"},
+		{"$INCLUDE", "$INCLUDE inc.db"},
+		{"$INCLUDE+origin", "$INCLUDE inc.db sub.example."},
+		{"$GENERATE", "$GENERATE 1-3 h$ 300 IN A 192.0.2.$"},
+		{"record", "www 300 IN A 192.0.2.1"},
+		{"record-no-owner", " 300 IN A 192.0.2.1"},
+	}
+	l := lines[j%len(lines)]
+	pre := "first 60 IN A 192.0.2.7\n"
+	next := "\nnext 60 IN A 192.0.2.1\n"
+	var cuts []int
+	for p := 1; p < len(l.line); p++ {
+		if l.line[p] == ' ' && l.line[p-1] != ' ' {
+			cuts = append(cuts, p)
+		}
+	}
+	cuts = append(cuts, len(l.line))
+	for _, p := range cuts {
+		for _, tail := range []string{next, "\n", "", " ; comment" + next} {
+			c07MustErrorWith(w, pre+l.line[:p]+" )"+l.line[p:]+tail, "unbalanced-parenthesis/directive/"+l.name, fsys)
+		}
+		// left open until the end of the input (the lines after it become part of the entry)
+		c07MustErrorWith(w, pre+l.line[:p]+" ("+l.line[p:], "unbalanced-parenthesis/directive-open-at-eof/"+l.name, fsys)
+		c07MustErrorWith(w, pre+l.line[:p]+" ("+l.line[p:]+"\n", "unbalanced-parenthesis/directive-open-at-eof/"+l.name, fsys)
+	}
+	// the well-formed counterparts are accepted (the oracle above is not vacuous: the same lines parse)
+	var err error
+	n := 0
+	zp := dns.NewZoneParser(strings.NewReader(pre+l.line+next), "example.", "zones/zone.db")
+	zp.SetIncludeAllowed(true)
+	zp.SetIncludeFS(fsys)
+	for _, ok := zp.Next(); ok; _, ok = zp.Next() {
+		n++
+	}
+	if err = zp.Err(); err != nil || n < 2 {
+		w.Violation("C07/wellformed-directive-rejected/"+l.name, fmt.Sprintf("the line without the stray parenthesis: %d records, error %v", n, err), map[string]any{"zone_text": pre + l.line + next})
+	}
+	w.Count("directive_paren_lines", 1)
+	w.NontrivialStr("directive-parens", l.name)
+}
+
 // c07MustError: texts that contain a lexical error by construction (a closing parenthesis that
 // closes nothing, a parenthesis left open at the end of the input) - whatever record type they
 // stand in: the parser must report an error, not hand out records and fall silent.
@@ -670,6 +740,7 @@ func init() {
 		section{"mutations", tiered(12000, 400000), c07Case},
 		section{"prefixes", func(string) int { return len(textLayouts()) + 4 }, c07Prefixes},
 		section{"token-soup", tiered(1500, 60000), c07TokenSoup},
+		section{"directive-parens", tiered(7, 7), c07DirectiveParens},
 		concurrentSection("C07"),
 	)
 	core.Register(&core.Monitor{
